@@ -350,8 +350,26 @@ fn build_sidecar(parquet_path: &Path, dir: &Path, src_meta: &std::fs::Metadata) 
     // if the rename still loses, defer to whatever is there — the fresh
     // check on the next call decides.
     let final_dir = sidecar_dir(parquet_path);
-    let _ = std::fs::remove_dir_all(&final_dir);
+    // Another process may have published a fresh sidecar while this one was
+    // building. Removing it to put an identical one in its place pulls the
+    // files out from under every reader that already chose it ("No such file
+    // or directory" in the middle of a query): keep the winner's, drop ours.
+    if is_fresh(&final_dir, src_meta) {
+        let _ = std::fs::remove_dir_all(&staging);
+        return Ok(());
+    }
+    // A stale (or half-removed) directory is moved aside first, so that the
+    // name never points at a directory that is being emptied, then deleted.
+    if final_dir.exists() {
+        let trash = final_dir.with_extension(format!("{}.stale", std::process::id()));
+        let _ = std::fs::remove_dir_all(&trash);
+        if std::fs::rename(&final_dir, &trash).is_ok() {
+            let _ = std::fs::remove_dir_all(&trash);
+        }
+    }
     if std::fs::rename(&staging, &final_dir).is_err() {
+        // lost the race for the name: whatever is there now is judged by the
+        // next fresh check
         let _ = std::fs::remove_dir_all(&staging);
     }
     Ok(())
